@@ -34,3 +34,15 @@ Theorem C02_prev_calls_model_kernel : forall l1 maxKB nextDist prevDist maxGap c
     rs = map Val (firstn k P) ++ repeat (Val 0) (k - length P).
 Proof. exact prev_calls_model. Qed.
 Print Assumptions C02_prev_calls_model_kernel.
+
+(** ... and with the three-algorithm kernel (Properties_C04: C04_erat3_self_spec) *)
+From PS Require Import Model.Erat3Self Proofs.Erat3SelfP.
+Theorem C02_prev_calls_model_kernel3 : forall l1 maxKB nextDist prevDist maxGap cut,
+  16 <= maxKB -> maxKB <= 8192 -> cut_spec cut ->
+  forall fuel s h k it' rs,
+    s <= MAX64 ->
+    run nextDist prevDist maxGap (pg_primes (erat3_self l1 maxKB)) cut fuel (fresh_iter s h) (repeat Prev k) = Done (it', rs) ->
+    let P := rev (primes_between 0 s) in
+    rs = map Val (firstn k P) ++ repeat (Val 0) (k - length P).
+Proof. exact prev_calls_model3. Qed.
+Print Assumptions C02_prev_calls_model_kernel3.
